@@ -57,6 +57,7 @@ def parseQ (s : String) : Option Qry :=
   | "V", some n => some (.vEven (n / 100) (n % 100))
   | "W", some n => some (.vExt (n / 100) (n % 100))
   | "M", some n => some (.qMap (n / 10) (n % 10))
+  | "S", some n => some (.qShared n)
   | "I", some n => some (.iMap (n / 1000) (n / 100 % 10) (n % 100))
   | _, _ => none
 
@@ -82,6 +83,10 @@ def step (line : String) : String :=
     | some ts => s!"v{(committedTxs ts).length}"
     | none => "bad-case"
   | "cr" :: _ :: _ :: _ :: _ :: txs =>
+    match txs.mapM parseTx with
+    | some ts => s!"v{(committedTxs ts).length}"
+    | none => "bad-case"
+  | "sq" :: _ :: _ :: _ :: txs =>
     match txs.mapM parseTx with
     | some ts => s!"v{(committedTxs ts).length}"
     | none => "bad-case"
@@ -116,6 +121,7 @@ def specStep (line : String) : String :=
     match splitSp case with
     | "mv" :: _ :: _ :: _ :: txs => judge txs impl
     | "cr" :: _ :: _ :: _ :: _ :: txs => judge txs impl
+    | "sq" :: _ :: _ :: _ :: txs => judge txs impl
     | "race" :: _ => if impl == "done" then "ok" else "fail:" ++ impl
     | _ => "bad-case"
   | _ => "bad-case"
